@@ -36,8 +36,15 @@ def gen_cases(seed, n, feats, pk=False):
             for t in db:
                 db[t] = [list(r) for r in dict.fromkeys(tuple(r) for r in db[t])]
         # every third query with derived tables is written with a WITH clause instead
-        sql = G.sql_query_cte(q) if i % 3 == 0 else G.sql_query(q)
-        out.append({"db": db, "q": q, "sql": sql, "pk": pk})
+        # ... and every third one with views (created before or after the rows are inserted)
+        views = []
+        if i % 3 == 0:
+            sql = G.sql_query_cte(q)
+        elif i % 3 == 1:
+            views, sql = G.sql_query_views(q)
+        else:
+            sql = G.sql_query(q)
+        out.append({"db": db, "q": q, "sql": sql, "pk": pk, "views": views, "views_first": bool(i % 2)})
     return out
 
 
@@ -63,6 +70,10 @@ def to_run_cases(cases, engines=("mem", "disk"), mocks=True, split_inserts=True)
                         part = rows[k:k + 2]
                         setup.append(f"insert into {t} values " + ", ".join(
                             "(" + ", ".join(G.lit(v) for v in r) + ")" for r in part))
+            if c.get("views"):
+                creates = [s for s in setup if s.startswith("create")]
+                rest = [s for s in setup if not s.startswith("create")]
+                setup = creates + (c["views"] + rest if c.get("views_first") else rest + c["views"])
             steps += [{"sql": s} for s in setup]
             lab = []
             steps.append({"sql": c["sql"]}); lab.append((len(steps) - 1, f"{eng}.on"))
